@@ -50,7 +50,7 @@ CHECKS = {
                   "iterations go on); a second cache alive all the time must stay untouched; reference = set of possible ordered dicts (latitude for `in`, popitem, view look-ups); every library call under a "
                   "deterministic step budget (termination); internal dict/list agreement and link walk after every transition.", ref="5/C06", note=SEQ_NOTE),
  "C07": dict(engine="seqmc", technique="explicit-state exploration of the real object vs a nondeterministic use-count reference (depth-bounded, state dedup with subsumption)",
-             text="All operation sequences (same menu as C06, macro operations count as one step) on the real LFUCache to depth 8 quick / 9-10 thorough (capacities 1-2) and 3 quick / 5 thorough "
+             text="All operation sequences (same menu as C06, macro operations count as one step) on the real LFUCache to depth 8 quick / 9-10 thorough (capacities 1-2) and 3 quick / 4 thorough "
                   "(capacity 3) from an empty and a warm cache; reference key -> (value, count) sets "
                   "with latitude for `in` and view look-ups; oracle: latest value, single victim with minimal count, non-decreasing iteration order, views terminate and agree.", ref="5/C07", note=SEQ_NOTE),
  "C08": dict(engine="seqmc", technique="explicit-state exploration of the real object vs reference model (whole reachable graph, bounded size)",
